@@ -117,6 +117,7 @@ public:
     PP.Bool = true;
     PP.FullyQualifiedName = true;
     PP.SuppressUnwrittenScope = true;
+    PP.PrintCanonicalTypes = true;
     MC.reset(ItaniumMangleContext::create(Ctx, Ctx.getDiagnostics()));
   }
 
@@ -545,7 +546,10 @@ private:
     } else if (const auto *CE = dyn_cast<CastExpr>(S)) {
       J.attribute("k", "cast");
       J.attribute("ck", CE->getCastKindName());
-      if (isa<ImplicitCastExpr>(CE)) J.attribute("impl", true);
+      if (const auto *ICE = dyn_cast<ImplicitCastExpr>(CE)) {
+        J.attribute("impl", true);
+        if (ICE->isPartOfExplicitCast()) J.attribute("pex", true);
+      }
       else J.attribute("style", CE->getStmtClassName());
       child("sub", CE->getSubExpr());
     } else if (isa<CXXThisExpr>(S)) {
